@@ -161,8 +161,8 @@ func candidate(g *hx.Gen, pw []byte) []byte {
 
 func gen(g *hx.Gen) {
 	r := g.R
-	nh := g.Count(250, 5000)
-	nm := g.Count(8000, 500000)
+	nh := g.Count(250, 3000)
+	nm := g.Count(8000, 250000)
 	if g.N > 0 {
 		nh, nm = g.N/10+1, g.N
 	}
